@@ -401,42 +401,62 @@ def nbhd_ranks(X, lists, k):
     return out
 
 
+def strongly_connected(nb):
+    """neighbour graph i -> nb[i]: every sample reachable from sample 0 and sample 0 reachable from every sample
+    (what check_connectivity tests: the library doubles k otherwise)"""
+    n = len(nb)
+    rev = [[] for _ in range(n)]
+    for i, l in enumerate(nb):
+        for j in l:
+            rev[j].append(i)
+    for g in (nb, rev):
+        seen, stack = {0}, [0]
+        while stack:
+            for j in g[stack.pop()]:
+                if j not in seen:
+                    seen.add(j)
+                    stack.append(j)
+        if len(seen) != n:
+            return False
+    return True
+
+
+ISO_MAPS = [[[1, 0], [0, 1]], [[0, -1], [1, 0]], [[1, -1], [1, 1]], [[-1, 0], [0, 1]],
+            [[2, -2], [2, 1], [1, 2]], [[1, 2], [2, 1], [-2, 2]], [[2, 1], [-2, 2], [1, -2]]]
+
+
 def filament_flat(rng, d, k, offset_exp=0, dup=False, hlle=False):
-    """exactly d-flat data (integer intrinsic coordinates X, injective integer map into D >= d dimensions) made of a
-    generic cloud and a LOWER-DIMENSIONAL WHISKER attached to it: a straight filament (d = 2) or a planar patch
-    (d = 3) of more than k samples whose mutual distances are smaller than the distance to the cloud, so that the k
-    nearest neighbours of its outer samples span fewer than d directions (rank-deficient centred local Gram matrix:
-    the local eigensolver returns ARBITRARY null vectors as the missing tangent coordinates).  dup: some whisker
-    samples occur twice (exact duplicates).  offset_exp: a common offset of 2^offset_exp in every ambient
-    coordinate (kernel entries stay exact doubles)."""
-    for _ in range(3000):
-        if d == 2:
-            cloud = [(-abs(p[0]), p[1]) for p in gen_points(rng, rng.randint(9, 13), 2, 12)]
-            a, b = rng.choice([(1, 0), (1, 0), (1, 1), (2, 1), (1, -1)])
-            y0 = rng.randint(-2, 2)
-            gap = rng.randint(2, 4)
-            m = k + rng.randint(1, 3)
-            whisker = [(gap + a * j, y0 + b * j) for j in range(m)]
-        else:
-            cloud = [(-abs(p[0]), p[1], p[2]) for p in gen_points(rng, rng.randint(14, 18), 3, 8)]
-            gap = rng.randint(3, 5)
-            cells = [(gap + u, v, 0) for u in range(4) for v in range(-2, 3)]
-            rng.shuffle(cells)
-            whisker = cells[:k + rng.randint(2, 4)]
-        if dup:
-            whisker = whisker + rng.sample(whisker, rng.randint(1, 2))
+    """exactly 2-flat data (integer intrinsic coordinates X, mapped into D = 2 or 3 dimensions by an integer matrix
+    with orthogonal columns of equal length, so that neighbours are the intrinsic ones) made of a generic cloud and
+    a STRAIGHT WHISKER attached to it: a root sample inside the cloud, a gap, then more than k equally spaced
+    collinear samples that are closer to each other (and to the root) than to the rest of the cloud.  The k nearest
+    neighbours of the outer whisker samples are exactly collinear: rank-deficient centred local Gram matrix, the
+    local eigensolver returns an ARBITRARY null vector as the missing tangent coordinate.  All other neighbourhoods
+    span the flat and (hlle) are generic for the quadratic fit; the neighbour graph is strongly connected (the method
+    does not raise k).  dup: some whisker samples occur twice.  offset_exp: a common offset of 2^offset_exp in every
+    ambient coordinate (kernel entries stay exact doubles)."""
+    assert d == 2
+    for _ in range(4000):
+        gap = rng.randint(3, 5)
+        m = k + rng.randint(1, 3)
+        outer = [(gap + j, 0) for j in range(m)]
+        keep = (k - 0.5) ** 2
+        cloud = {(0, 0)}
+        for p in gen_points(rng, rng.randint(10, 15), 2, 8):
+            q = (-abs(p[0]), p[1])
+            if all((q[0] - o[0]) ** 2 + (q[1] - o[1]) ** 2 >= keep for o in outer[:1]):
+                cloud.add(q)
+        cloud = sorted(cloud)
+        whisker = outer + (rng.sample(outer, rng.randint(1, 2)) if dup else [])
         X = cloud + whisker
-        if len(set(cloud)) != len(cloud) or len(X) <= k + 1:
+        if len(cloud) < 8:
             continue
         order = list(range(len(X)))
         rng.shuffle(order)
         X = [X[i] for i in order]
-        D = d + rng.randint(0, 1)
-        A = [[rng.randint(-2, 2) for _ in range(d)] for _ in range(D)]
-        if rank(A) != d:
-            continue
-        off = [rng.choice([1, -1]) * 2 ** offset_exp if offset_exp else 0 for _ in range(D)]
-        pts = [tuple(off[r] + sum(A[r][t] * x[t] for t in range(d)) for r in range(D)) for x in X]
+        A = rng.choice(ISO_MAPS)
+        off = [rng.choice([1, -1]) * 2 ** offset_exp if offset_exp else 0 for _ in A]
+        pts = [tuple(off[r] + sum(A[r][t] * x[t] for t in range(d)) for r in range(len(A))) for x in X]
         K = kernel_table(pts, "linear")
         if not all(exact_double(Fraction(v)) for r in K for v in r):
             continue
@@ -444,9 +464,12 @@ def filament_flat(rng, d, k, offset_exp=0, dup=False, hlle=False):
         rk = nbhd_ranks(X, nb, k)
         if not (min(rk) < d and max(rk) == d and sum(1 for r in rk if r == d) >= len(X) // 3):
             continue
-        # HLLE: the full-rank neighbourhoods must be generic (no k neighbours on a common quadric: integer lattices
-        # produce them all the time), otherwise the C++ normalises rounding noise there and nothing can be said
-        if hlle and any(r == d and hlle_conditioning([X[j] for j in l[:k]], k, d) < 3e-2 for r, l in zip(rk, nb)):
+        if not strongly_connected(nb):
+            continue    # the method would raise k until the whisker neighbourhoods reach into the cloud
+        # HLLE: the full-rank neighbourhoods must be generic (no k neighbours on a common conic: integer lattices and
+        # neighbourhoods with k - 2 collinear samples produce them all the time), otherwise the C++ normalises
+        # rounding noise there and nothing can be said
+        if hlle and any(r == d and hlle_conditioning([X[j] for j in l[:k]], k, d) < 1e-2 for r, l in zip(rk, nb)):
             continue
         return X, K
     raise RuntimeError("filament_flat: no case found")
@@ -456,7 +479,7 @@ def gen_rankdef(rng, meth, kind, thorough=False):
     """WM / EMB cases on flat data with locally rank-deficient neighbourhoods; what C08 states about them: the
     alignment matrix annihilates constants and the affine functions of the intrinsic coordinates
     (check_null_space), the embedding minimises the cost and is affine in the coordinates"""
-    d = 3 if (meth == "hlle" and thorough and rng.random() < 0.25) else 2
+    d = 2
     kmin = hlle_ncols(d) if meth == "hlle" else d + 2
     k = kmin + rng.randint(0, 2)
     offset_exp = rng.choice([0, 0, 0, 12, 17, 20])
